@@ -76,6 +76,34 @@ func convertValueToFloat(value any, typ reflect.Type) (float64, error) {
 	return 0, conversionError("", value, typ)
 }
 
+// exceedsInteger reports whether rv is an unsigned integer or a float too large in magnitude
+// (or not a number) for the integer type typ: reflect's conversion would wrap it around,
+// and a length of 1e20 would arrive as a negative number.
+func exceedsInteger(rv reflect.Value, typ reflect.Type) bool {
+	var limit float64 // the first power of two beyond the type
+	signed := false
+	switch typ.Kind() {
+	case reflect.Int, reflect.Int8, reflect.Int16, reflect.Int32, reflect.Int64:
+		limit, signed = math.Ldexp(1, typ.Bits()-1), true
+	case reflect.Uint, reflect.Uint8, reflect.Uint16, reflect.Uint32, reflect.Uint64, reflect.Uintptr:
+		limit = math.Ldexp(1, typ.Bits())
+	default:
+		return false
+	}
+	switch rv.Kind() {
+	case reflect.Uint, reflect.Uint8, reflect.Uint16, reflect.Uint32, reflect.Uint64, reflect.Uintptr:
+		bits := typ.Bits()
+		if signed {
+			bits--
+		}
+		return bits < 64 && rv.Uint() >= uint64(1)<<bits
+	case reflect.Float32, reflect.Float64:
+		f := math.Trunc(rv.Float())
+		return math.IsNaN(f) || f >= limit || signed && f < -limit
+	}
+	return false
+}
+
 // Convert value to the type. This is a more aggressive conversion, that will
 // recursively create new map and slice values as necessary. It doesn't
 // handle circular references.
@@ -85,6 +113,9 @@ func Convert(value any, typ reflect.Type) (any, error) { //nolint: gocyclo
 	rv := reflect.ValueOf(value)
 	// int.Convert(string) returns "\x01" not "1", so guard against that in the following test
 	if typ.Kind() != reflect.String && value != nil && rv.Type().ConvertibleTo(typ) {
+		if exceedsInteger(rv, typ) {
+			return nil, conversionError("", value, typ)
+		}
 		return rv.Convert(typ).Interface(), nil
 	}
 	if typ == timeType && rv.Kind() == reflect.String {
